@@ -170,6 +170,39 @@ def apply_rules(text, rules):
             if k < r.get("min", 0):
                 raise ExtractionDrift("must-fire rule %r fired %d < %d times" % (r["name"], k, r["min"]))
             continue
+        if "wrap_calls" in r:
+            # wrap every call `<callee matching the regex>(balanced args)` as fmt % call  (exception model: CALLX)
+            out, pos, k = [], 0, 0
+            for m in re.finditer(r["wrap_calls"], text):
+                if m.start() < pos:
+                    continue
+                i = m.end() - 1
+                if text[i] != "(":
+                    continue
+                j = balanced(text, i, "(", ")")
+                out.append(text[pos:m.start()])
+                out.append(r["fmt"] % (r.get("rename", lambda x: x)(text[m.start():i]) + text[i:j]))
+                pos = j
+                k += 1
+            out.append(text[pos:])
+            text = "".join(out)
+            fired.append((r["name"], k))
+            if k < r.get("min", 0):
+                raise ExtractionDrift("must-fire rule %r fired %d < %d times" % (r["name"], k, r["min"]))
+            continue
+        if "after_block" in r:
+            # insert text right after the balanced {...} block that follows the regex
+            m = re.search(r["after_block"], text, re.S)
+            if not m:
+                if r.get("min", 0):
+                    raise ExtractionDrift("must-fire rule %r did not match" % r["name"])
+                fired.append((r["name"], 0))
+                continue
+            i = text.index("{", m.end() - 1)
+            j = balanced(text, i)
+            text = text[:j] + r["insert"] + text[j:]
+            fired.append((r["name"], 1))
+            continue
         if "forbid" in r:
             # nothing matching the pattern may survive the earlier rules (an unmapped construct): drift, not a guess
             if re.search(r["forbid"], text, re.S):
